@@ -1247,10 +1247,167 @@ def plan(tier, seed):
         n, rand, maxlen = 16, 200, 4
     else:
         n, rand, maxlen = 64, 4700, 5
-    return [{'shard': i, 'shards': n, 'random': rand, 'maxlen': maxlen} for i in range(n)]
+    out = [{'shard': i, 'shards': n, 'random': rand, 'maxlen': maxlen} for i in range(n)]
+    # L2: the same kind of history as API text to a live session in the lab (the real Peer._main consumes the RIB)
+    m = 8 if tier == 'quick' else 24
+    out += [{'shard': 5000 + i, 'level2': True, 'part': i, 'cases': 4 if tier == 'quick' else 40} for i in range(m)]
+    return out
+
+
+# ---------------------------------------------------------------------------------------- L2: live session in the lab
+
+L2_PREFIX = ['10.4.0.0/24', '10.4.1.0/24', '10.4.2.0/24', '10.4.3.0/24']
+L2_VARIANT = [(nh, med) for nh in ('192.0.2.1', '192.0.2.2') for med in (1, 2, 3)]
+L2_FILLER = ('192.0.2.9', 9)
+
+
+def l2_case(r: random.Random, idx: int) -> dict:
+    """API operations arriving at any time relative to the transmission of the initial batch and of one another. The one history
+    shape recorded as a known finding of L1 (a prefix re-announced under an attribute set whose group was created earlier in
+    the same flush window than the group it is queued under) is not generated: every mismatch L2 reports is a new one."""
+    from vlib import scen  # noqa: F401
+
+    nfill = r.choice([0, 30, 90])
+    group = r.random() < 0.5
+    cfg = {'hold': 90, 'families': [(1, 1)], 'adjout': True, 'api': True, 'group_updates': group,
+           'route_texts': [f'route 10.8.{i}.0/24 next-hop {L2_FILLER[0]} med {L2_FILLER[1]};' for i in range(nfill)]}
+    if r.random() < 0.25:
+        cfg['rate_limit'] = r.choice([20, 100])
+    intended = {f'10.8.{i}.0/24': L2_FILLER for i in range(nfill)}
+    steps = [['accept', 30.0], ['establish']]
+    ops = []
+    order = [L2_FILLER] if nfill else []  # attribute groups in creation order within the current flush window
+    queued = {}
+    for _ in range(r.randrange(3, 14)):
+        d = r.choice([0, 0, 0.001, 0.01, 0.05, 0.12, 0.3])
+        if d:
+            steps.append(['sleep', d])
+        kind = r.choice(['announce', 'announce', 'announce', 'withdraw', 'withdraw', 'flush', 'clear', 'refresh', 'barrier'])
+        if kind == 'announce':
+            p = r.choice(L2_PREFIX)
+            cands = list(L2_VARIANT)
+            r.shuffle(cands)
+            v = None
+            for c in cands:
+                if p in queued and queued[p] != c and c in order and order.index(c) < order.index(queued[p]):
+                    continue  # the known stale-group shape
+                v = c
+                break
+            if v is None:
+                continue
+            steps.append(['api', f'peer * announce route {p} next-hop {v[0]} med {v[1]}'])
+            intended[p] = v
+            queued[p] = v
+            if v not in order:
+                order.append(v)
+            ops.append(('announce', p, v))
+        elif kind == 'withdraw':
+            p = r.choice(L2_PREFIX)
+            steps.append(['api', f'peer * withdraw route {p} next-hop 192.0.2.1'])
+            intended.pop(p, None)
+            queued.pop(p, None)
+            ops.append(('withdraw', p))
+        elif kind == 'flush':
+            steps.append(['api', 'rib flush out'])
+            ops.append(('flush',))
+        elif kind == 'clear':
+            steps.append(['api', 'rib clear out'])
+            intended = {}
+            queued = {}
+            ops.append(('clear',))
+        elif kind == 'refresh':
+            steps.append(['send', rw.message(rw.ROUTE_REFRESH, bytes([0, 1, 0, 1])).hex()])
+            ops.append(('refresh',))
+        else:
+            steps.append(['wait_quiet', 1.0, 30.0])
+            order, queued = [], {}
+            ops.append(('barrier',))
+    steps += [['wait_quiet', 2.0, 40.0], ['snapshot', 'end'], ['mark', 'end']]
+    return {'config': cfg, 'steps': steps, 'vtimeout': 400.0, 'wall': 120.0, 'quantum': 0.0005, 'rx_limit': 70000, 'ops': ops, 'intended': intended, 'nfill': nfill, 'group': group}
+
+
+def run_level2(desc):
+    import re
+
+    from vlib import scen
+
+    res = Result()
+    r = random.Random(desc['seed'] * 48611 + desc['part'])
+    for ci in range(desc['cases']):
+        case = l2_case(r, ci)
+        status, rec = scen.run_case(case)
+        cls = 'L2:' + ('group' if case['group'] else 'single') + (':rate-limit' if case['config'].get('rate_limit') else '')
+        if status != 'ok':
+            res.inconclusive.append(f'L2 case: lab {status} {str(rec)[:200]}')
+            continue
+        marks = {e['name'] for e in rec['events'] if e['kind'] == 'mark'}
+        snaps = [e['snap'] for e in rec['events'] if e['kind'] == 'snapshot']
+        if 'end' not in marks or not snaps or any(n[1] in ('no-connection', 'not-established') for n in rec['notes']):
+            res.inconclusive.append(f'L2 case did not complete: {rec["notes"]}')
+            continue
+        sess = rec['sessions'][0]
+        wit = {'ops': case['ops'], 'nfill': case['nfill'], 'group_updates': case['group'], 'rate_limit': case['config'].get('rate_limit'), 'api': [s_[1] for s_ in case['steps'] if s_[0] == 'api'][:40]}
+        if sess['eof_at'] is not None:
+            res.violation('C04/L2-session-lost', 'the session ended during the history', wit, cls)
+            continue
+        if rec['helper_rx'].count('\nerror') or rec['helper_rx'].startswith('error'):
+            res.inconclusive.append('L2: an API command of the history was refused')
+            continue
+        table = rw.PeerTable()
+        sx = rw.sess(asn4=True, addpath=())
+        bad = None
+        for t, ty, body in sess['rx']:
+            if ty != rw.UPDATE:
+                continue
+            if '..' in body:
+                bad = 'record holds a truncated body'
+                break
+            try:
+                d = rw.dec_update(bytes.fromhex(body), sx)
+            except rw.RefError as e:
+                bad = str(e)
+                break
+            if not d['eor']:
+                table.apply(d)
+        if bad:
+            res.violation('C04/L2-undecodable-update', bad, wit, cls)
+            continue
+        peer = {}
+        for key, v in table.routes.items():
+            med = dict(v['attrs']).get(rw.MED)
+            peer[key[5]] = (v['nexthop'][0] if v['nexthop'] else None, int(med) if med is not None else None)
+        reported = {}
+        for lst in snaps[-1]['rib_out'].values():
+            for text in lst:
+                m = re.match(r'^(\S+) next-hop (\S+)(?:.*? med (\d+))?', text)
+                if m:
+                    reported[m.group(1)] = (m.group(2), int(m.group(3)) if m.group(3) else None)
+        intended = dict(case['intended'])
+        wit.update(peer=sorted(peer.items())[:12] if len(peer) < 40 else f'{len(peer)} routes', reported=sorted(reported.items())[:12] if len(reported) < 40 else f'{len(reported)} routes')
+
+        def diff(a, b):
+            return sorted(k for k in set(a) | set(b) if a.get(k) != b.get(k))
+
+        d_pr = diff(peer, reported)
+        d_ri = diff(reported, intended)
+        if d_pr:
+            k = d_pr[0]
+            kind = 'missing-at-peer' if k not in peer else 'not-reported' if k not in reported else 'differs'
+            res.violation(f'C04/L2-peer-vs-reported:{kind}', f'{k}: the peer holds {peer.get(k)}, ExaBGP reports {reported.get(k)} (asked: {intended.get(k)})', dict(wit, prefix=k), cls)
+        elif d_ri:
+            k = d_ri[0]
+            res.violation(f'C04/L2-reported-vs-intended:{"missing" if k not in reported else "extra" if k not in intended else "differs"}', f'{k}: ExaBGP reports {reported.get(k)}, the operations ask for {intended.get(k)}', dict(wit, prefix=k), cls)
+        else:
+            res.ok(cls, ('L2', case['group'], case['nfill'], tuple(o[0] for o in case['ops'])))
+            for o in case['ops']:
+                res.ok('L2-op:' + o[0])
+        res.sample({'level': 'L2', 'ops': [o[0] for o in case['ops']], 'routes_at_peer': len(peer)}, limit=2)
+    return res
 
 
 def run_shard(desc):
+    if desc.get('level2'):
+        return run_level2(desc)
     res = Result()
     exa.quiet()
     import exabgp
@@ -1373,6 +1530,10 @@ REQUIRED_CLASSES = {
         'enum:len4',
         'random:len1-4',
         'random:len5-12',
+        'L2-op:announce',
+        'L2-op:withdraw',
+        'L2-op:flush',
+        'L2-op:clear',
     ],
 }
 REQUIRED_CLASSES['thorough'] = REQUIRED_CLASSES['quick'] + ['enum:len5']
